@@ -28,7 +28,7 @@ def check_virtual(obj, r, size=8, pos=0):
     if ref == "indf":
         dst = env.mem(f[0:12], size)
     elif ref == "plusw":
-        dst = env.mem(f[0:12] + env.w.signextend(12), size)
+        dst = env.mem(f[0:12] + env.wreg.signextend(12), size)
     elif ref in ("postinc", "postdec", "preinc"):
         obj.misc["virts"].append((ref, f))
         dst = env.mem(f[0:12], size)
